@@ -79,7 +79,6 @@ V exn_code(std::exception const &e)
   if(dynamic_cast<std::runtime_error const *>(&e)) {
     if(what == "connection closed") return {3, 0};
     if(what == "out of buffers") return {5, 0};
-    if(what.find("out of range") != std::string::npos) return {7, 0};
     return {9, 0};
   }
   return {10, 0};
